@@ -68,7 +68,11 @@ func Run(f func(p *Plan) []Event) {
 		if evs == nil {
 			evs = []Event{}
 		}
-		b, err := json.Marshal(map[string]interface{}{"plan": p.ID, "events": evs})
+		params := p.Params
+		if params == nil {
+			params = map[string]interface{}{}
+		}
+		b, err := json.Marshal(map[string]interface{}{"plan": p.ID, "events": evs, "params": params})
 		if err != nil {
 			fmt.Fprintln(os.Stderr, "marshal:", err)
 			os.Exit(3)
